@@ -172,6 +172,7 @@ inductive Op where
   | reset (h : Nat)                               -- Blockchain.Reset(h) -> ResetState
   | restart                                       -- process restart: Init(current height)
   | validated (sr : Rec) (verified : Bool)        -- a signed state root from the network: AddStateRoot
+  | flush (ok : Bool)                             -- a flush of the write cache to the DB, successful or failed
 
 /-- module state + the surviving chain of change sets (ghost). `none`: block index beyond uint32. -/
 structure St (T : Type) where
@@ -194,6 +195,11 @@ def step {T : Type} (O : TrieOps T) (s : St T) : Op → Option (St T)
     match init O s.m (s.chain.length - 1) with
     | some m' => some { s with m := m' }
     | none => some s
+  | .flush _ =>
+    -- `store` is what the whole store stack stands for (C09 `flatten`); a flush step, the failing one
+    -- included, does not change it (C09 `flushStep_flatten`, C03 `flush_keeps_commit`), and it touches
+    -- neither the module's trie nor its cached root / height
+    some s
   | .validated sr v =>
     if sr.index < 2 ^ 32 then some { s with m := addStateRoot s.m sr v } else none    -- sr.Index is a uint32
 
